@@ -51,6 +51,9 @@ impl From<MILPValue> for f64 {
     }
 }
 
+/// Longest time limit handed to MicroLP (about 136 years); longer ones are cut to it.
+const LONGEST_TIME_LIMIT: Duration = Duration::from_secs(u32::MAX as u64);
+
 /// Tunable parameters for the MicroLP mixed-integer solver.
 ///
 /// The default is an empty configuration, which reproduces the behaviour of
@@ -182,7 +185,10 @@ pub fn solve_milp_lp_problem_with(
         solve_options.mip_gap = gap;
     }
     if let Some(limit) = options.time_limit {
-        solve_options.time_limit = Some(limit);
+        // MicroLP turns the limit into a deadline (`Instant::now() + limit`), and that sum
+        // panics when it cannot be represented (`Duration::MAX`, a natural way to say
+        // "no limit"). A limit of more than a century is as good as any longer one.
+        solve_options.time_limit = Some(limit.min(LONGEST_TIME_LIMIT));
     }
 
     match problem.solve_with(solve_options) {
